@@ -100,6 +100,8 @@ def replay_failure(failure):
         cmd, needle = "waitgroup_race\n", "waitgroup wait BLOCKED count=0"
     elif "sender-sleeps-although-a-peer-connected" in role:
         cmd, needle = "lb_wait_race\n", "lb wait BLOCKED peers=1"
+    elif "two-recvs-succeed-without-send" in role:
+        cmd, needle = "rep_recv_race\n", "rep_recv_race ok=2"
     elif "two-sends-succeed-without-recv" in role:
         cmd, needle = "req_send_race\n", "req_send_race ok=2"
     if cmd is None:
